@@ -111,6 +111,7 @@ type ServerConfig struct {
 	Lifetime       time.Duration // root lifetime (0 = default)
 	ExtraOpts      []nodeenrollment.Option
 	OptsSpare      int // spare capacity of the options slice handed to the listener (C15)
+	NoAcceptLoop   bool // the caller (e.g. a SplitListener) accepts from the intercepting listener itself
 	Unix           string
 }
 
@@ -169,7 +170,7 @@ func NewServer(cfg ServerConfig) (*Server, error) {
 		s.BaseCert = c
 		s.BaseTLS = &tls.Config{
 			Certificates: []tls.Certificate{{Certificate: [][]byte{der}, PrivateKey: priv, Leaf: c}},
-			NextProtos:   []string{"h2", "app-proto", "__AUTH__", "__UNAUTH__", "other"},
+			NextProtos:   []string{"h2", "app-proto", "__AUTH__", "__UNAUTH__", "other", "sp1", "sp2", "zz"},
 			MinVersion:   tls.VersionTLS12,
 		}
 	}
@@ -195,7 +196,9 @@ func NewServer(cfg ServerConfig) (*Server, error) {
 		return nil, err
 	}
 	s.acceptCh = make(chan AcceptResult, 64)
-	go s.acceptLoop()
+	if !cfg.NoAcceptLoop {
+		go s.acceptLoop()
+	}
 	return s, nil
 }
 
